@@ -59,6 +59,11 @@ theorem retain_dropT (mut_ : Bool) (keep : Nat → Bool) (hc : c.lock n) :
     (Gen.retain true mut_ c keep none (fun _ _ => none)).ev.dropT.Perm
       ((RetainIdx.filterIdx (fun i => !keep i) 0 c.rows).map C08.firstId) := by
   rw [Gen.retain_eq true mut_ keep none hc]; exact C08.retain keep hc
+/-- … and with a callback that writes -/
+theorem retain_mut_dropT (mut_ : Bool) (keep : Nat → Bool) (touch : Nat → Nat → Option (Nat × Nat)) (hc : c.lock n) :
+    (Gen.retain true mut_ c keep none touch).ev.dropT.Perm (Spec.retain true c.rows keep none touch).ev.dropT := by
+  rw [Gen.retain_eq_w true mut_ keep none touch hc, C08.retain_mut_spec]; exact C08.retain_mut keep touch hc
+
 theorem push_dropT (dr : Bool) : (Gen.push dr c e).ev.dropT = [] := by rw [Gen.push_eq]; rfl
 theorem pop_dropT (dr : Bool) : (Gen.pop dr c).ev.dropT = [] := by rw [Gen.pop_eq]; exact C08.pop_none
 theorem remove_dropT (dr : Bool) (i : Nat) : (Gen.remove dr c i).ev.dropT = [] := by rw [Gen.remove_eq]; exact C08.remove_none i
